@@ -3254,6 +3254,8 @@ class Evaluator:
                 else:
                     res = self.mk_set(h, res, a)
             return [(state, res)]
+        if name == "__contains__" and len(args) == 1 and not kwargs:
+            return [(state, self.compare(ast.In(), args[0], recv))]  # S.__contains__(x) is x in S
         if name in SET_PRED_METHODS and len(args) == 1:
             a = args[0]
             if a[0] in ("tuplelit", "listlit", "setlit") and name in ("issuperset", "isdisjoint") and not any(x[0] == "star" for x in a[1]):
